@@ -567,6 +567,8 @@ NewBoxedHead(call, total) ==
     \* re-establishes the checksum for the new length
     [] call.h = "mb" -> HdrMagic \o call.typ \o U32Bytes(total) \o ChecksumBytes(HdrMagic, call.typ, U32Bytes(total))
     [] OTHER -> call.typ \o U32Bytes(total)
+\* "an equal tag" also in the sense of the type's own PartialEq (where the type has one)
+CloneEq(cl) == Has(cl, "eq") => cl.eq = 1
 C16_Accept(c, trk, call, o) ==
   CASE call.op = "clone_ref" ->
          \* cloning the structure found in the image: same declared size, same bytes up to it
@@ -580,14 +582,14 @@ C16_Accept(c, trk, call, o) ==
              total == NewBoxedHSize(call) + Len(body)
              E == NewBoxedHead(call, total) \o body IN
          /\ o.k = "ok" /\ EqUpTo(o.v.bytes, E, total, FALSE) /\ HeapObjOk(o.v, total)
-         /\ (Has(o.v, "clone") => EqUpTo(o.v.clone.bytes, E, total, FALSE) /\ HeapObjOk(o.v.clone, total))
+         /\ (Has(o.v, "clone") => EqUpTo(o.v.clone.bytes, E, total, FALSE) /\ HeapObjOk(o.v.clone, total) /\ CloneEq(o.v.clone))
     [] call.op = "construct" /\ BoxedKind(call.kind) /\ ~CtorPanics(call.kind, call) ->
          o.k = "ok" =>
            LET total == IF Len(o.v.bytes) >= 8 THEN U32At(o.v.bytes, 4) ELSE 0 IN
            /\ HeapObjOk(o.v, total)
            \* cloning is the identity: same declared size, same bytes up to it
            /\ (Has(o.v, "clone") => /\ EqUpTo(o.v.clone.bytes, o.v.bytes, total, FALSE)
-                                    /\ HeapObjOk(o.v.clone, total))
+                                    /\ HeapObjOk(o.v.clone, total) /\ CloneEq(o.v.clone))
     [] OTHER -> TRUE
 C06_Accept(c, trk, call, o) ==
   CASE call.op = "use_built" ->
